@@ -21,14 +21,14 @@ import Darling.Props.C13
   Main theorems (for every oracle `o` = syn's parsers, every item `m`, no bound on sizes):
     * `scalar_meets`            every one-node target but `Callable` (side condition only on the
                                 mirror: a one-identifier path prints as that identifier);
-    * `callable_meets_partial`  Callable, unless the value is wrapped in an invisible group  (D3)
+    * `callable_meets`          Callable (invisible groups are looked through: D3, fixed)
     * `vecLit_meets`            vectors of each literal kind (bare array, quoted array, list form)
-    * `numArray_meets_partial`  numeric arrays, unless an element sits in two invisible groups (D4)
+    * `numArray_meets`          numeric arrays (an element's groups are peeled to any depth: D4, fixed)
     * `pathList_meets`, `meta_meets`
-    * `C13_meets_partial`       all of the above as one statement over `Tgt`; `C13_verdict_iff_partial`
-                                (`Meets model v ↔ v = text`), `C13_rejections_spanned_partial`
-    * `preserve_meets`, `parse_meets_partial`   the two expression helpers; the second one only off
-                                literals that are not strings (D6) and grouped strings (D2)
+    * `C13_meets`               all of the above as one statement over `Tgt`; `C13_verdict_iff`
+                                (`Meets model v ↔ v = text`), `C13_rejections_spanned`; the only side
+                                condition left (`Tgt.Side`) is the mirror's, for identifiers
+    * `preserve_meets`, `parse_meets`   the two expression helpers, no side condition (D2, D6, fixed)
     * `agree_iff`, `agree`      quoted and bare spelling give equal values exactly when syn's grammar
                                 maps the string to the tokens of the bare value (the external part)
     * `vec_agree`               the same for vectors and numeric arrays
@@ -675,41 +675,44 @@ theorem scalar_meets (o : Oracle) (rh : String → Hooks Val) (T : Scalar) (hT :
 
 /-! ## Callable -/
 
-/-- the value of the item is not wrapped in an invisible group -/
-def ValueNotGrouped : Meta → Prop
-  | .nameValue _ e _ _ => ∀ g sp, e ≠ .group g sp
-  | _ => True
-
 theorem callable_other (k t : String) (s : Span) :
-    (callableHooks Val.toks).fromExpr (.other k t s) =
+    callableFromExpr Val.toks (.other k t s) =
       if k == "closure" then .ok (.toks t) else .err (Err.unexpectedExprType (.other k t s)) := by
   by_cases hk : k = "closure"
   · subst hk; rfl
   · have : (k == "closure") = false := by simpa using hk
-    simp only [this, Hooks.fromExpr, callableHooks]
+    simp only [this]
+    unfold callableFromExpr
     split <;> simp_all
 
-/-- MAIN THEOREM 2 — Callable, PARTIAL: only for values that are not wrapped in an invisible group
-    (discrepancy D3 below) -/
-theorem callable_meets_partial (o : Oracle) (rh : String → Hooks Val) (m : Meta) (hg : ValueNotGrouped m) :
+/-- `from_expr` of Callable: a path or a closure under any number of invisible groups -/
+theorem callable_fromExpr_meets (o : Oracle) (e : Expr) :
+    Meets (callableFromExpr Val.toks e) (Scalar.callable.read o e) := by
+  refine read_meets o .callable (callableFromExpr Val.toks) (fun _ => True) ?_ ?_ ?_ e trivial
+  · intro g sp v hv; simpa only [callableFromExpr] using hv
+  · intro l; rfl
+  · intro w _ hng hnl
+    cases w with
+    | lit l => exact absurd rfl (hnl l)
+    | group g sp => exact absurd rfl (hng g sp)
+    | path _ _ => rfl
+    | qpath _ _ _ => rfl
+    | array _ _ _ => rfl
+    | other k t s =>
+        rw [callable_other]
+        have hs : Scalar.callable.readBare (.other k t s) =
+            if k == "closure" then .value (.toks t) else .rejectedAt s := rfl
+        rw [hs]
+        cases k == "closure" <;> rfl
+
+/-- MAIN THEOREM 2 — Callable, end to end, for every item (no side condition) -/
+theorem callable_meets (o : Oracle) (rh : String → Hooks Val) (m : Meta) :
     Meets ((hooksOf o rh Scalar.callable.ty).fromMeta m) (Scalar.callable.expected o m) := by
   simp only [Scalar.ty, hooksOf, Scalar.expected]
   show Meets ((callableHooks Val.toks).fromMetaD m) _
   refine fromMetaD_meets _ rfl rfl _ m ?_
-  intro p e t sp hm
-  rw [hm] at hg
-  cases e with
-  | group g s => exact absurd rfl (hg g s)
-  | lit l => rfl
-  | path _ _ => rfl
-  | qpath _ _ _ => rfl
-  | array _ _ _ => rfl
-  | other k t s =>
-      rw [callable_other]
-      have hs : Scalar.callable.read o (.other k t s) =
-          if k == "closure" then .value (.toks t) else .rejectedAt s := rfl
-      rw [hs]
-      cases k == "closure" <;> rfl
+  intro p e t sp _
+  exact callable_fromExpr_meets o e
 
 /-! ## element-wise reading -/
 
@@ -906,53 +909,41 @@ theorem vecLit_meets (o : Oracle) (rh : String → Hooks Val) (k : LitKind) (m :
 
 /-! ## numeric arrays -/
 
-/-- the element is not a literal inside two (or more) invisible groups -/
-def ShallowElem (e : Expr) : Prop :=
-  ∀ g s s', e = .group (.group g s) s' → ∀ l, written g ≠ .lit l
+/-- the literal under the invisible groups of an element is the literal the user wrote -/
+theorem numElemLit_written (e : Expr) :
+    numElemLit e = match written e with
+      | .lit l => some l
+      | _ => none := by
+  induction e using written.induct with
+  | case1 g sp ih => simpa only [numElemLit, written] using ih
+  | case2 l => rfl
+  | case3 p s => rfl
+  | case4 p t s => rfl
+  | case5 es t s => rfl
+  | case6 k t s => rfl
 
 theorem numElem_meets (sp : IntSpec) (num : Lit → Option Val)
     (hnum : ∀ l, Meets (Scalars.numFromValue sp Val.int l) (numVerdict num l))
-    (e : Expr) (hs : ShallowElem e) : Meets (numElem sp Val.int e) (numElemRead num e) := by
-  cases e with
+    (e : Expr) : Meets (numElem sp Val.int e) (numElemRead num e) := by
+  simp only [numElem, numElemRead, numElemLit_written]
+  cases written e with
   | lit l => exact hnum l
+  | group _ _ => rfl
   | path _ _ => rfl
   | qpath _ _ _ => rfl
   | array _ _ _ => rfl
   | other _ _ _ => rfl
-  | group g s =>
-      cases g with
-      | lit l => exact hnum l
-      | path _ _ => rfl
-      | qpath _ _ _ => rfl
-      | array _ _ _ => rfl
-      | other _ _ _ => rfl
-      | group g' s' =>
-          have hnl := hs g' s' s rfl
-          have : numElemRead num (.group (.group g' s') s) = .rejectedAt s := by
-            simp only [numElemRead, written]
-            cases hw : written g' with
-            | lit l => exact absurd hw (hnl l)
-            | _ => rfl
-          rw [this]
-          rfl
 
-/-- every element of the array value, in either spelling, is shallow -/
-def NumArraySide (o : Oracle) : Meta → Prop
-  | .nameValue _ e _ _ => ∀ es, arrayElems o e = some es → ∀ x ∈ es, ShallowElem x
-  | _ => True
-
-/-- MAIN THEOREM 4 — numeric arrays, PARTIAL: no element is a literal inside two invisible groups
-    (discrepancy D4 below).  `num` is any account of how one literal denotes a number that the
-    element conversion (C11) meets; `numOf` below is one. -/
-theorem numArray_meets_partial (o : Oracle) (rh : String → Hooks Val) (sp : IntSpec) (num : Lit → Option Val)
+/-- MAIN THEOREM 4 — numeric arrays, for every item (no side condition).  `num` is any account of
+    how one literal denotes a number that the element conversion (C11) meets; `numOf` below is one. -/
+theorem numArray_meets (o : Oracle) (rh : String → Hooks Val) (sp : IntSpec) (num : Lit → Option Val)
     (hnum : ∀ l, Meets (Scalars.numFromValue sp Val.int l) (numVerdict num l))
-    (m : Meta) (hside : NumArraySide o m) :
+    (m : Meta) :
     Meets ((hooksOf o rh (.numArray sp)).fromMeta m) (numArrayExpected o num m) := by
   simp only [hooksOf, numArrayExpected]
   show Meets ((numArrayHooks sp o.parseArr Val.int Val.list).fromMetaD m) _
   refine fromMetaD_meets _ rfl rfl _ m ?_
-  intro p e t s hm
-  rw [hm] at hside
+  intro p e t s _
   show Meets (numArrayFromExpr sp o.parseArr Val.int Val.list e) _
   refine vecRead_meets o (numElem sp Val.int) _ _ ?_ ?_ ?_ ?_ ?_ ?_ e ?_
   · intro g sp; simp only [numArrayFromExpr]
@@ -980,8 +971,8 @@ theorem numArray_meets_partial (o : Oracle) (rh : String → Hooks Val) (sp : In
     | path _ _ => rfl
     | qpath _ _ _ => rfl
     | other _ _ _ => rfl
-  · intro es hes x hx
-    exact numElem_meets sp num hnum x (hside es hes x hx)
+  · intro es _ x _
+    exact numElem_meets sp num hnum x
 
 /-- one account of the element conversion: whatever `from_value` of the integer type returns -/
 def numOf (sp : IntSpec) (l : Lit) : Option Val :=
@@ -1086,45 +1077,42 @@ def expected (o : Oracle) : Tgt → Meta → Verdict
   | .wholeMeta, m => metaExpected m
   | .pathList, m => pathListExpected m
 
-/-- the side conditions: two discrepancies (Callable: D3, numeric arrays: D4) and one
-    well-formedness condition on the mirror (identifiers) -/
-def Side (o : Oracle) (T : Tgt) (m : Meta) : Prop :=
-  (T = .scalar .callable → ValueNotGrouped m) ∧
-  ((T = .scalar .ident ∨ T = .scalar .identString) → ItemIdentPrints m) ∧
-  (∀ sp, T = .numArray sp → NumArraySide o m)
+/-- the one side condition: well-formedness of the mirror (a path that is one identifier prints as
+    that identifier); nothing here restricts the library -/
+def Side (T : Tgt) (m : Meta) : Prop :=
+  (T = .scalar .ident ∨ T = .scalar .identString) → ItemIdentPrints m
 end Tgt
 
 /-- MAIN THEOREM — every target of C13, every item, every oracle: the model's outcome is the one
-    the text demands; PARTIAL because of `Tgt.Side` (D3, D4) -/
-theorem C13_meets_partial (o : Oracle) (rh : String → Hooks Val) (T : Tgt) (m : Meta) (hs : T.Side o m) :
+    the text demands (`Tgt.Side` is about the mirror only) -/
+theorem C13_meets (o : Oracle) (rh : String → Hooks Val) (T : Tgt) (m : Meta) (hs : T.Side m) :
     Meets ((hooksOf o rh T.ty).fromMeta m) (T.expected o m) := by
-  obtain ⟨h1, h2, h3⟩ := hs
   cases T with
   | scalar S =>
       by_cases hc : S = .callable
-      · subst hc; exact callable_meets_partial o rh m (h1 rfl)
+      · subst hc; exact callable_meets o rh m
       · refine scalar_meets o rh S hc m ?_
         intro hi
-        exact h2 (by cases hi with
+        exact hs (by cases hi with
           | inl h => exact Or.inl (by rw [h])
           | inr h => exact Or.inr (by rw [h]))
   | vecLit k => exact vecLit_meets o rh k m
-  | numArray sp => exact numArray_meets_partial o rh sp (numOf sp) (numOf_sound sp) m (h3 sp rfl)
+  | numArray sp => exact numArray_meets o rh sp (numOf sp) (numOf_sound sp) m
   | wholeMeta => exact meta_meets o rh m
   | pathList => exact pathList_meets o rh m
 
 /-- … and the text pins the outcome down: value, or span of the error -/
-theorem C13_verdict_iff_partial (o : Oracle) (rh : String → Hooks Val) (T : Tgt) (m : Meta) (hs : T.Side o m)
+theorem C13_verdict_iff (o : Oracle) (rh : String → Hooks Val) (T : Tgt) (m : Meta) (hs : T.Side m)
     (v : Verdict) : Meets ((hooksOf o rh T.ty).fromMeta m) v ↔ v = T.expected o m :=
-  ⟨fun h => meets_unique h (C13_meets_partial o rh T m hs), fun h => h ▸ C13_meets_partial o rh T m hs⟩
+  ⟨fun h => meets_unique h (C13_meets o rh T m hs), fun h => h ▸ C13_meets o rh T m hs⟩
 
 /-- "rejected with a spanned error" (and no panic), as a corollary -/
-theorem C13_rejections_spanned_partial (o : Oracle) (rh : String → Hooks Val) (T : Tgt) (m : Meta)
-    (hs : T.Side o m) :
+theorem C13_rejections_spanned (o : Oracle) (rh : String → Hooks Val) (T : Tgt) (m : Meta)
+    (hs : T.Side m) :
     ((hooksOf o rh T.ty).fromMeta m).isPanic = false ∧
       ∀ e, (hooksOf o rh T.ty).fromMeta m = .err e → e.span ≠ none :=
-  ⟨meets_not_panic (C13_meets_partial o rh T m hs),
-   fun e he => meets_err_spanned (C13_meets_partial o rh T m hs) e he⟩
+  ⟨meets_not_panic (C13_meets o rh T m hs),
+   fun e he => meets_err_spanned (C13_meets o rh T m hs) e he⟩
 
 /-! ## quoted and bare spellings agree -/
 
@@ -1263,47 +1251,64 @@ theorem preserve_meets (o : Oracle) (m : Meta) :
       rw [this]
       rfl
 
-/-- neither a literal that is not a string (D6) nor a string literal inside an invisible group (D2) -/
-def ParseHelperSide : Meta → Prop
-  | .nameValue _ e _ _ =>
-      (∀ l, e = .lit l → ∃ s, l.v = .str s) ∧
-      (∀ g sp, e = .group g sp → ∀ s t sp', written g ≠ .lit ⟨.str s, t, sp'⟩)
-  | _ => True
+/-- the test of `parse_str_literal` finds the string literal the user wrote, if the value is one -/
+theorem strLitOf_written (e : Expr) :
+    strLitOf e = match written e with
+      | .lit l => (match l.v with
+          | .str _ => some l
+          | _ => none)
+      | _ => none := by
+  induction e using written.induct with
+  | case1 g sp ih => simpa only [strLitOf, written] using ih
+  | case2 l => rfl
+  | case3 p s => rfl
+  | case4 p t s => rfl
+  | case5 es t s => rfl
+  | case6 k t s => rfl
 
-/-- `parse_str_literal`, PARTIAL (discrepancies D2 and D6 below) -/
-theorem parse_meets_partial (o : Oracle) (m : Meta) (hs : ParseHelperSide m) :
+/-- `parse_str_literal`, for every item (no side condition): a string literal, grouped or not, is
+    re-parsed; every other value — any other literal included — comes back as written -/
+theorem parse_meets (o : Oracle) (m : Meta) :
     Meets (parseStrLiteral (o.parseSyn "Expr") Val.toks m) (helperExpected o true m) := by
   cases m with
   | path p => rfl
   | list _ _ _ _ _ _ => rfl
   | nameValue p e t sp =>
-      obtain ⟨h1, h2⟩ := hs
-      cases e with
+      simp only [parseStrLiteral, helperExpected, strLitOf_written]
+      rw [← toks_written e]
+      cases written e with
       | lit l =>
-          obtain ⟨s, hs⟩ := h1 l rfl
           obtain ⟨v, t', s'⟩ := l
-          simp only at hs
-          subst hs
-          simp only [parseStrLiteral, parsedFromValue, helperExpected, written]
-          cases o.parseSyn "Expr" s <;> rfl
-      | group g s =>
-          have hns := h2 g s rfl
-          have : helperExpected o true (.nameValue p (.group g s) t sp) = .value (.toks g.toks) := by
-            rw [← toks_written g]
-            simp only [helperExpected, written]
-            cases hw : written g with
-            | lit l =>
-                obtain ⟨v, t', s'⟩ := l
-                cases v with
-                | str x => exact absurd hw (hns x t' s')
-                | _ => rfl
-            | _ => rfl
-          rw [this]
-          rfl
+          cases v with
+          | str s =>
+              simp only [parsedFromValue]
+              cases o.parseSyn "Expr" s <;> rfl
+          | _ => rfl
+      | group _ _ => rfl
       | path _ _ => rfl
       | qpath _ _ _ => rfl
       | array _ _ _ => rfl
       | other _ _ _ => rfl
+
+/-- the model's two helpers return the same thing unless the written value is a string literal -/
+theorem helpers_model_differ_only_on_strings (o : Oracle) (m : Meta)
+    (h : ∀ p e t sp, m = .nameValue p e t sp → ∀ s t' sp', written e ≠ .lit ⟨.str s, t', sp'⟩) :
+    parseStrLiteral (o.parseSyn "Expr") Val.toks m = preserveStrLiteral Val.toks m := by
+  cases m with
+  | path p => rfl
+  | list _ _ _ _ _ _ => rfl
+  | nameValue p e t sp =>
+      have hn := h p e t sp rfl
+      have : strLitOf e = none := by
+        rw [strLitOf_written]
+        cases hw : written e with
+        | lit l =>
+            obtain ⟨v, t', s'⟩ := l
+            cases v with
+            | str x => exact absurd hw (hn x t' s')
+            | _ => rfl
+        | _ => rfl
+      simp only [parseStrLiteral, preserveStrLiteral, this]
 
 /-- "the two expression helpers differ only in that one keeps a string literal as a string and
     the other parses its contents" — on the text's side: off string literals they are the same … -/
@@ -1345,16 +1350,20 @@ theorem expr_target_is_parse_helper (o : Oracle) (p : Path) (e : Expr) (t : Stri
       cases v <;> rfl
   | _ => rfl
 
-/-! ## DISCREPANCIES between the text and the model (each reproduced on the library, see the report)
+/-! ## the former DISCREPANCIES between the text and the model, and the one that is left
 
-  D1  (below, last) outer attributes on an array element are dropped by the library; the mirror
-      cannot express them and the model predicts a rejection.
-  D2  `parse_str_literal` does not look through an invisible group: a grouped string literal is kept
+  D2, D3, D4 and D6 were found by this audit, reproduced on the library, and fixed there (one
+  commit: "look through invisible groups in Callable, numeric arrays and parse_str_literal"); the
+  model follows the fixed code and the examples below are now positive: on each former witness
+  the model's outcome is the text's verdict.
+  D2  `parse_str_literal` did not look through an invisible group: a grouped string literal was kept
       as a string (while `syn::Expr::from_meta` on the same item parses its contents).
-  D6  `parse_str_literal` rejects a literal that is not a string (`x = 5`), `preserve_str_literal`
-      and `syn::Expr` return it: the helpers do not "differ only" on string literals.
-  D3  `Callable` does not look through an invisible group (every other target does).
-  D4  an element of a numeric array is looked for under one invisible group, not under two.
+  D6  `parse_str_literal` rejected a literal that is not a string (`x = 5`), `preserve_str_literal`
+      and `syn::Expr` return it: the helpers did not "differ only" on string literals.
+  D3  `Callable` did not look through an invisible group (every other target does).
+  D4  an element of a numeric array was looked for under one invisible group, not under two.
+  D1  (below, last; still open, out of scope of the fix) outer attributes on an array element are
+      dropped by the library; the mirror cannot express them and the model predicts a rejection.
 -/
 namespace Ex
 
@@ -1366,63 +1375,92 @@ def pFoo : Path := { global := false, segs := ["foo"], plain := true, toks := "f
 def pFooBar : Path :=
   { global := false, segs := ["foo", "bar"], plain := true, toks := "foo :: bar", span := ⟨4, 12⟩ }
 def sAB : Lit := ⟨.str "a + b", "\"a + b\"", ⟨4, 11⟩⟩
+def sBad : Lit := ⟨.str "a +", "\"a +\"", ⟨4, 9⟩⟩
 def five : Lit := ⟨.int "5" "", "5", ⟨4, 5⟩⟩
+def yes : Lit := ⟨.bool true, "true", ⟨4, 8⟩⟩
 def u8 : IntSpec := { name := "u8", signed := false, bits := 8, nonzero := false }
 
-/-- `x = "a + b"` and the same with the literal inside an invisible group -/
+/-- `x = "a + b"` and the same with the literal inside one and two invisible groups -/
 def mStr : Meta := .nameValue pX (.lit sAB) "x = \"a + b\"" ⟨0, 11⟩
 def mStrG : Meta := .nameValue pX (.group (.lit sAB) ⟨4, 11⟩) "x = \"a + b\"" ⟨0, 11⟩
+def mStrGG : Meta := .nameValue pX (.group (.group (.lit sAB) ⟨4, 11⟩) ⟨4, 11⟩) "x = \"a + b\"" ⟨0, 11⟩
 
-/-! ### D2 -/
+/-! ### D2 (fixed): a grouped string literal is parsed -/
 example : parseStrLiteral (oE.parseSyn "Expr") Val.toks mStr = .ok (.toks "a + b") := rfl
-example : parseStrLiteral (oE.parseSyn "Expr") Val.toks mStrG = .ok (.toks "\"a + b\"") := rfl
+example : parseStrLiteral (oE.parseSyn "Expr") Val.toks mStrG = .ok (.toks "a + b") := rfl
+example : parseStrLiteral (oE.parseSyn "Expr") Val.toks mStrGG = .ok (.toks "a + b") := rfl
 example : helperExpected oE true mStrG = .value (.toks "a + b") := rfl
 example : (hooksOf oE rh0 .synExpr).fromMeta mStrG = .ok (.toks "a + b") := rfl
-example : ¬ Meets (parseStrLiteral (oE.parseSyn "Expr") Val.toks mStrG) (helperExpected oE true mStrG) := by
-  intro h
-  have h1 : Val.toks "\"a + b\"" = Val.toks "a + b" := h
-  have h2 := Val.toks.inj h1
-  exact absurd h2 (by decide)
-example : ¬ ParseHelperSide mStrG := fun h => h.2 _ _ rfl _ _ _ rfl
+example : Meets (parseStrLiteral (oE.parseSyn "Expr") Val.toks mStrG) (helperExpected oE true mStrG) :=
+  parse_meets oE mStrG
+/-- the other helper still keeps the string, grouped or not -/
+example : preserveStrLiteral Val.toks mStrG = .ok (.toks "\"a + b\"") := rfl
+/-- a grouped string that is not an expression is rejected at the literal -/
+example : parseStrLiteral (oE.parseSyn "Expr") Val.toks
+      (.nameValue pX (.group (.lit sBad) ⟨4, 9⟩) "x = \"a +\"" ⟨0, 9⟩) =
+    .err (.leaf (.unknownValue "a +") [] (some ⟨4, 9⟩)) := rfl
+/-- a grouped value that is not a literal comes back as written -/
+example : parseStrLiteral (oE.parseSyn "Expr") Val.toks
+      (.nameValue pX (.group (.path pFooBar ⟨4, 12⟩) ⟨4, 12⟩) "x = foo :: bar" ⟨0, 12⟩) =
+    .ok (.toks "foo :: bar") := rfl
 
-/-! ### D6 -/
+/-! ### D6 (fixed): a literal that is not a string is returned as written -/
 def m5 : Meta := .nameValue pX (.lit five) "x = 5" ⟨0, 5⟩
+def m5G : Meta := .nameValue pX (.group (.lit five) ⟨4, 5⟩) "x = 5" ⟨0, 5⟩
+def mTrue : Meta := .nameValue pX (.lit yes) "x = true" ⟨0, 8⟩
 example : preserveStrLiteral Val.toks m5 = .ok (.toks "5") := rfl
 example : (hooksOf oE rh0 .synExpr).fromMeta m5 = .ok (.toks "5") := rfl
-example : parseStrLiteral (oE.parseSyn "Expr") Val.toks m5 =
-    .err (.leaf (.unexpectedType "int") [] (some ⟨4, 5⟩)) := rfl
+example : parseStrLiteral (oE.parseSyn "Expr") Val.toks m5 = .ok (.toks "5") := rfl
+example : parseStrLiteral (oE.parseSyn "Expr") Val.toks m5G = .ok (.toks "5") := rfl
+example : parseStrLiteral (oE.parseSyn "Expr") Val.toks mTrue = .ok (.toks "true") := rfl
 example : helperExpected oE true m5 = .value (.toks "5") := rfl
 example : helperExpected oE true m5 = helperExpected oE false m5 := rfl
-example : ¬ Meets (parseStrLiteral (oE.parseSyn "Expr") Val.toks m5) (helperExpected oE true m5) := fun h => h
-example : ¬ ParseHelperSide m5 := fun h => by
-  obtain ⟨s, hs⟩ := h.1 five rfl
-  cases hs
+example : Meets (parseStrLiteral (oE.parseSyn "Expr") Val.toks m5) (helperExpected oE true m5) :=
+  parse_meets oE m5
+example : parseStrLiteral (oE.parseSyn "Expr") Val.toks m5 = preserveStrLiteral Val.toks m5 := rfl
 
-/-! ### D3 -/
+/-! ### D3 (fixed): Callable looks through invisible groups -/
 def mCall : Meta := .nameValue pX (.path pFooBar ⟨4, 12⟩) "x = foo :: bar" ⟨0, 12⟩
 def mCallG : Meta := .nameValue pX (.group (.path pFooBar ⟨4, 12⟩) ⟨4, 12⟩) "x = foo :: bar" ⟨0, 12⟩
+def mCallGG : Meta :=
+  .nameValue pX (.group (.group (.path pFooBar ⟨4, 12⟩) ⟨4, 12⟩) ⟨4, 12⟩) "x = foo :: bar" ⟨0, 12⟩
 example : (hooksOf oE rh0 .callable).fromMeta mCall = .ok (.toks "foo :: bar") := rfl
-example : (hooksOf oE rh0 .callable).fromMeta mCallG =
-    .err (.leaf (.unexpectedType "group") [] (some ⟨4, 12⟩)) := rfl
+example : (hooksOf oE rh0 .callable).fromMeta mCallG = .ok (.toks "foo :: bar") := rfl
+example : (hooksOf oE rh0 .callable).fromMeta mCallGG = .ok (.toks "foo :: bar") := rfl
 example : Scalar.callable.expected oE mCallG = .value (.toks "foo :: bar") := rfl
 example : (hooksOf oE rh0 .synPath).fromMeta mCallG = .ok (.toks "foo :: bar") := rfl
-example : ¬ Meets ((hooksOf oE rh0 Scalar.callable.ty).fromMeta mCallG) (Scalar.callable.expected oE mCallG) :=
-  fun h => h
-example : ¬ ValueNotGrouped mCallG := fun h => h _ _ rfl
+example : Meets ((hooksOf oE rh0 Scalar.callable.ty).fromMeta mCallG) (Scalar.callable.expected oE mCallG) :=
+  callable_meets oE rh0 mCallG
+/-- a grouped closure; and a grouped literal is still rejected, at the value the user wrote -/
+example : (hooksOf oE rh0 .callable).fromMeta
+      (.nameValue pX (.group (.other "closure" "| x | x" ⟨4, 9⟩) ⟨4, 9⟩) "x = | x | x" ⟨0, 9⟩) =
+    .ok (.toks "| x | x") := rfl
+example : (hooksOf oE rh0 .callable).fromMeta m5G =
+    .err (.leaf (.unexpectedType "lit") [] (some ⟨4, 5⟩)) := rfl
+example : Scalar.callable.expected oE m5G = .rejectedAt ⟨4, 5⟩ := rfl
 
-/-! ### D4 -/
+/-! ### D4 (fixed): the groups around an element of a numeric array are peeled to any depth -/
 def one : Expr := .lit ⟨.int "1" "", "1", ⟨5, 6⟩⟩
 def two : Expr := .lit ⟨.int "2" "", "2", ⟨8, 9⟩⟩
 def mArr (e : Expr) : Meta := .nameValue pX (.array [one, e] "[1 , 2]" ⟨4, 10⟩) "x = [1 , 2]" ⟨0, 10⟩
 example : (hooksOf oE rh0 (.numArray u8)).fromMeta (mArr two) = .ok (.list [.int 1, .int 2]) := rfl
 example : (hooksOf oE rh0 (.numArray u8)).fromMeta (mArr (.group two ⟨8, 9⟩)) = .ok (.list [.int 1, .int 2]) := rfl
 example : (hooksOf oE rh0 (.numArray u8)).fromMeta (mArr (.group (.group two ⟨8, 9⟩) ⟨8, 9⟩)) =
-    .err (.leaf (.custom "Expected array of unsigned integers") [] (some ⟨8, 9⟩)) := rfl
+    .ok (.list [.int 1, .int 2]) := rfl
+example : (hooksOf oE rh0 (.numArray u8)).fromMeta
+      (mArr (.group (.group (.group two ⟨8, 9⟩) ⟨8, 9⟩) ⟨8, 9⟩)) = .ok (.list [.int 1, .int 2]) := rfl
 example : numArrayExpected oE (numOf u8) (mArr (.group (.group two ⟨8, 9⟩) ⟨8, 9⟩)) =
     .value (.list [.int 1, .int 2]) := rfl
-example : ¬ NumArraySide oE (mArr (.group (.group two ⟨8, 9⟩) ⟨8, 9⟩)) := fun h =>
-  h _ rfl (.group (.group two ⟨8, 9⟩) ⟨8, 9⟩) (by simp) _ _ _ rfl _ rfl
-/-- the vector of literals next door looks through any number of groups -/
+example : Meets ((hooksOf oE rh0 (.numArray u8)).fromMeta (mArr (.group (.group two ⟨8, 9⟩) ⟨8, 9⟩)))
+    (numArrayExpected oE (numOf u8) (mArr (.group (.group two ⟨8, 9⟩) ⟨8, 9⟩))) :=
+  numArray_meets oE rh0 u8 (numOf u8) (numOf_sound u8) _
+/-- an element that is not a literal under its groups is rejected at the element as written -/
+example : (hooksOf oE rh0 (.numArray u8)).fromMeta
+      (mArr (.group (.group (.path pFoo ⟨8, 9⟩) ⟨8, 9⟩) ⟨7, 10⟩)) =
+    .err (.leaf (.custom "Expected array of unsigned integers") [] (some ⟨7, 10⟩)) := rfl
+example : numArrayExpected oE (numOf u8) (mArr (.group (.group (.path pFoo ⟨8, 9⟩) ⟨8, 9⟩) ⟨7, 10⟩)) =
+    .rejectedAt ⟨7, 10⟩ := rfl
+/-- the vector of literals next door looks through any number of groups, as before -/
 example : (hooksOf oE rh0 (.vecLit .int)).fromMeta (mArr (.group (.group two ⟨8, 9⟩) ⟨8, 9⟩)) =
     .ok (.list [.toks "1", .toks "2"]) := rfl
 
@@ -1456,41 +1494,27 @@ example : ¬ Meets ((hooksOf oE rh0 Scalar.ident.ty).fromMeta
   have h1 : Val.toks "foo" = Val.toks "bar" := h
   exact absurd (Val.toks.inj h1) (by decide)
 
--- `callable_meets_partial`: `hg`
-example : ValueNotGrouped mCall := fun _ _ h => by cases h
+-- `callable_meets`, `parse_meets`: no hypothesis.  `numArray_meets`: `hnum` is `numOf_sound`
 
--- `numArray_meets_partial`: `hnum` is `numOf_sound`; `hside`
-example : NumArraySide oE (mArr (.group two ⟨8, 9⟩)) := by
-  intro es hes x hx g s s' hxe
-  cases hes
-  simp only [List.mem_cons, List.mem_nil_iff, or_false] at hx
-  cases hx with
-  | inl h => rw [h] at hxe; cases hxe
-  | inr h => rw [h] at hxe; cases hxe
+-- `C13_meets`: `hs` (vacuous off identifiers, the mirror's condition on them)
+example : (Tgt.scalar .callable).Side mCallG := by
+  intro h; cases h with
+  | inl h => cases h
+  | inr h => cases h
+example : (Tgt.numArray u8).Side (mArr (.group (.group two ⟨8, 9⟩) ⟨8, 9⟩)) := by
+  intro h; cases h with
+  | inl h => cases h
+  | inr h => cases h
+example : (Tgt.scalar .ident).Side mIdent := by
+  intro _ p sp i h hi
+  cases h
+  cases hi
+  rfl
+example : Meets ((hooksOf oE rh0 (Tgt.scalar .callable).ty).fromMeta mCallGG)
+    ((Tgt.scalar .callable).expected oE mCallGG) :=
+  C13_meets oE rh0 _ _ (by intro h; cases h with | inl h => cases h | inr h => cases h)
 
--- `C13_meets_partial`: `hs`
-example : (Tgt.scalar .path).Side oE mCallG := by
-  refine ⟨?_, ?_, ?_⟩
-  · intro h; cases h
-  · intro h; cases h with
-    | inl h => cases h
-    | inr h => cases h
-  · intro _ h; cases h
-example : (Tgt.scalar .callable).Side oE mCall := by
-  refine ⟨?_, ?_, ?_⟩
-  · intro _ _ _ h; cases h
-  · intro h; cases h with
-    | inl h => cases h
-    | inr h => cases h
-  · intro _ h; cases h
-
--- `parse_meets_partial`: `hs`
-example : ParseHelperSide mStr := by
-  refine ⟨?_, ?_⟩
-  · intro l h; cases h; exact ⟨_, rfl⟩
-  · intro _ _ h; cases h
-
--- `helpers_differ_only_on_strings`: `h`
+-- `helpers_differ_only_on_strings`, `helpers_model_differ_only_on_strings`: `h`
 example : ∀ p e t sp, m5 = .nameValue p e t sp → ∀ s t' sp', written e ≠ .lit ⟨.str s, t', sp'⟩ := by
   intro p e t sp h s t' sp' hw
   cases h
